@@ -223,6 +223,12 @@ func (c *Channel) ReadUntilFuzzy(ctx context.Context, b []byte) ([]byte, error) 
 // ReadUntilExplicit reads bytes out of the channel Q object until the bytes b are seen in the
 // output. Once the bytes are seen all read bytes are returned.
 func (c *Channel) ReadUntilExplicit(ctx context.Context, b []byte) ([]byte, error) {
+	if len(b) == 0 {
+		// nothing to find (same as ReadUntilFuzzy): on a quiet line no bytes would ever arrive
+		// to "contain" the empty input.
+		return nil, nil
+	}
+
 	var rb []byte
 
 	for {
